@@ -17,6 +17,7 @@ import (
 	"strings"
 	"time"
 
+	"ariga.io/atlas/internal/verifhook"
 	"ariga.io/atlas/sql/internal/sqlx"
 	"ariga.io/atlas/sql/migrate"
 	"ariga.io/atlas/sql/schema"
@@ -195,6 +196,7 @@ func (d *Driver) Lock(_ context.Context, name string, timeout time.Duration) (sc
 	path := filepath.Join(os.TempDir(), name+".lock")
 	c, err := os.ReadFile(path)
 	if errors.Is(err, os.ErrNotExist) {
+		verifhook.At("sqlite_lock_checked", "path", path, "found", "absent")
 		return acquireLock(path, timeout)
 	}
 	if err != nil {
@@ -208,6 +210,7 @@ func (d *Driver) Lock(_ context.Context, name string, timeout time.Duration) (sc
 		// Lock is still valid.
 		return nil, fmt.Errorf("sql/sqlite: lock on %q already taken", name)
 	}
+	verifhook.At("sqlite_lock_checked", "path", path, "found", "expired")
 	return acquireLock(path, timeout)
 }
 
